@@ -134,6 +134,9 @@ class Sym(object):
 
     def _div(self, a, b):
         eng = get_engine()
+        q = _exact_quotient(eng, a, b)
+        if q is not None:
+            return tm.to_real(q)
         if eng is not None and not tm.is_const(b):
             eng.side_condition('div_nonzero', tm.ne(b, tm.const(0, b.sort)))
         if tm.is_const(b) and b.args[0] == 0:
@@ -145,6 +148,9 @@ class Sym(object):
 
     def _idiv(self, a, b):
         eng = get_engine()
+        q = _exact_quotient(eng, a, b)
+        if q is not None:
+            return q
         if eng is not None and not tm.is_const(b):
             eng.side_condition('div_nonzero', tm.ne(b, tm.const(0, b.sort)))
         return tm.idiv(a, b)
@@ -181,6 +187,10 @@ class Sym(object):
 
     # -- comparison ------------------------------------------------------------
     def _cmp(self, other, f):
+        if isinstance(other, float) and other in (float('inf'), float('-inf')):
+            # every symbolic real is finite: comparisons with an infinity are decided
+            pos = other > 0
+            return {tm.lt: pos, tm.le: pos, tm.gt: not pos, tm.ge: not pos, tm.eq: False, tm.ne: True}[f]
         o = lift(other)
         if o is None:
             return NotImplemented
@@ -297,6 +307,17 @@ class Sym(object):
     def conjugate(self): return self
     def item(self): return self
 
+    def __getitem__(self, key):
+        # NumPy scalars accept () / ... / newaxis indexing; a Sym stands for such a scalar
+        import numpy as np
+        from . import symnp
+        a = np.empty((), dtype=object)
+        a[()] = self
+        r = a[key]
+        if isinstance(r, np.ndarray):
+            return r.view(symnp.SymArray) if r.ndim else r[()]
+        return r
+
     @property
     def real(self): return self
 
@@ -316,6 +337,27 @@ class Sym(object):
     def dtype(self):
         import numpy as np
         return np.dtype(object)
+
+
+def _exact_quotient(eng, a, b):
+    """a / b when an assumed dependency contract (np.lcm / np.gcd facade) introduced  a == b * q  with integer q
+    on this path: the quotient is that q (times a constant factor of a).  Sound given the recorded assumption and b != 0."""
+    if eng is None or not getattr(eng, 'quotients', None):
+        return None
+    c = None
+    if a.op == 'mul' and a.args[0].op == 'const':
+        c, a0 = a.args[0], a.args[1]
+    else:
+        a0 = a
+    if a0.op == 'toreal':
+        a0 = a0.args[0]
+    b0 = b.args[0] if b.op == 'toreal' else b
+    q = eng.quotients.get((a0.uid, b0.uid))
+    if q is None:
+        return None
+    if not any(t is q[1] for t in eng.pc):
+        return None            # the defining assumption is not on this path
+    return tm.mul(c, q[0]) if c is not None else q[0]
 
 
 def fn_sqrt(t):
